@@ -140,6 +140,13 @@ def mate_case(draw):
             case["nmating"][k] = max(1, case["nmating"][k])
         if isinstance(case["nprogeny"], list):
             case["nprogeny"][k] = max(1, case["nprogeny"][k])
+    # per-cross count arrays may come in any integer dtype (tables read from files, numpy scalars); in a quarter of those
+    # cases one cross has a mating x progeny product beyond the range of a narrow dtype (e.g. 16 x 10 in int8)
+    case["count_dtype"] = draw(st.sampled_from(["int64", "int64", "int8", "uint8", "int16", "int32", "uint16"]))
+    if isinstance(case["nmating"], list) and isinstance(case["nprogeny"], list) and draw(st.integers(0, 3)) == 0:
+        k = draw(st.integers(0, ncross - 1))
+        case["nmating"][k] = draw(st.sampled_from([12, 16, 20]))
+        case["nprogeny"][k] = draw(st.sampled_from([11, 13, 16]))
     # some parents are addressed through negative indices (the same taxon counted from the end, as numpy indexing allows)
     case["negative_index"] = draw(st.sampled_from([False, False, True]))
     case["nself"] = draw(st.sampled_from([0, 0, 0, 1, 2, 3]))
@@ -158,8 +165,8 @@ def _counts(v, ncross):
     return list(v) if isinstance(v, list) else [int(v)] * ncross
 
 
-def _arg(v):
-    return numpy.array(v, dtype="int64") if isinstance(v, list) else int(v)
+def _arg(v, dtype="int64"):
+    return numpy.array(v, dtype=dtype) if isinstance(v, list) else int(v)
 
 
 NAME_RE = re.compile(r"^(.*\D)(\d+)$")
@@ -204,6 +211,10 @@ def check_mate(case, ctx):
     ctx.label("single_marker", p == 1)
     ctx.label("single_taxon", n == 1)
     ctx.label("negative_parent_index", bool(case.get("negative_index")))
+    arr_counts = isinstance(case["nmating"], list) or isinstance(case["nprogeny"], list)
+    ctx.label("count_arrays_dtype=" + case.get("count_dtype", "int64"), arr_counts)
+    ctx.label("count_product_beyond_int8", arr_counts and case.get("count_dtype", "int64") in ("int8", "uint8")
+              and any(a * b > 127 for a, b in zip(nm, npg)))
 
     outs = []
     xoprob_by_call = [xoprob.copy()]      # crossover probabilities in force at each call
@@ -212,7 +223,8 @@ def check_mate(case, ctx):
         kw = {}
         if case["miscout"]:
             kw["miscout"] = {}
-        out = mp.mate(pg, xconfig, _arg(case["nmating"]), _arg(case["nprogeny"]), nself=nself, **kw)
+        cdt = case.get("count_dtype", "int64")
+        out = mp.mate(pg, xconfig, _arg(case["nmating"], cdt), _arg(case["nprogeny"], cdt), nself=nself, **kw)
         outs.append((out, pc, fc, gens.snapshot(out, gens.VRNT_FIELDS + gens.VRNT_GRP_FIELDS)))
         N = sum(a * b for a, b in zip(nm, npg))
         # counters advanced by exactly what was produced
